@@ -32,6 +32,11 @@ A_EXCLUDE = {
 
 
 def run(F, R, ctx):
+    _run(F, R, ctx)
+    reentrant_drop_rule(F, R)
+
+
+def _run(F, R, ctx):
     R.rule("C18.a", "for each SteelVal variant whose payload type owns SteelVal again (ownership cycle through Gc/Vec/…; "
                     "weak handles excluded): the payload type (or the newtype wrapping it) has a manual Drop impl that "
                     "reaches the iterative drop handler (IterativeDropHandler / DROP_BUFFER)")
@@ -225,3 +230,35 @@ def run(F, R, ctx):
     R.inst("C18.c", "CycleDetector::format_with_cycles bounds its depth", bool(cmpd) or bool(fc.call_blocks(r"stacker::")),
            "the recursive printer has no depth comparison: printing a deeply nested value overflows the native stack",
            fc.loc(), sample=True)
+
+
+def reentrant_drop_rule(F, R):
+    R.rule("C18.f", "a value dropped from inside the drop handler is still taken apart iteratively: in every Drop impl / drop "
+                    "handler that borrows the shared DROP_BUFFER with try_borrow_mut, both outcomes — buffer free, buffer "
+                    "already in use (the value is being dropped while IterativeDropHandler::bfs is running, e.g. as part of a "
+                    "message owned by a value that is being discarded) — reach IterativeDropHandler::bfs on every path to the "
+                    "return; otherwise the re-entrant case falls back to the recursive drop glue and a deep value overflows "
+                    "the native stack")
+    n = 0
+    for name, fn in sorted(F.fns.items()):
+        if not name.startswith("steel::"):
+            continue
+        tb = fn.call_blocks(r"RefCell<T>\}::try_borrow_mut$")
+        if not tb:
+            continue
+        uses_buffer = any(e[0] in ("staticref", "constref") and "DROP_BUFFER" in e[1] for _, _, e in fn.events()) or \
+            (fn.d.get("parent") and any(e[0] in ("staticref", "constref") and "DROP_BUFFER" in e[1]
+                                        for _, _, e in F.fns[fn.d["parent"]].events())) if fn.d.get("parent") in F.fns else False
+        bfs = fn.call_blocks(r"IterativeDropHandler\}::bfs$")
+        if not bfs and not uses_buffer:
+            continue
+        n += 1
+        starts = [fn.blocks[t]["ret"] for t in tb if fn.blocks[t].get("ret") is not None]
+        ok = bool(bfs) and fn.every_path_passes_from(starts, fn.returns(), bfs)[0]
+        owner = lib.short_name(fn.d.get("parent") or fn.name)
+        R.inst("C18.f", "%s / iterative on both outcomes of try_borrow_mut" % owner, ok,
+               "%s only uses the iterative drop handler when the shared drop buffer could be borrowed; when it is already in "
+               "use (re-entrant drop) the contents are dropped by the recursive drop glue: a deeply nested value held by, "
+               "say, an undelivered channel message overflows the native stack when its owner is discarded" % owner,
+               fn.loc(), sample=True)
+    R.floor("C18.f", "drop handlers borrowing the shared drop buffer", n, 5)
